@@ -161,7 +161,7 @@ def run(ctx, rec):
     import hdl21 as h
     from hdl21.generators import Series, MosStack, Wrapper
 
-    N = 4 if ctx.quick else 8
+    N = 4 if ctx.quick else 12
     for (ulabel, unit, mods, sp, bp) in unit_specs():
         pairs = [(a, b) for a, b in itertools.permutations(list(sp), 2) if sp[a] == sp[b]]
         for (a, b) in pairs:
